@@ -106,7 +106,7 @@ CHECKS = {
  'C19': dict(level='fault_enumeration', ref='DESIGN.md 3/C19',
     technique='fault injection by sys.monitoring: KeyboardInterrupt raised from a LINE callback at the k-th executed line of package code during Election.count(), for every k of each swept count; renderers and prefix property checked after each',
     text='For each swept (profile, rule, options) - at least one per rule name in the quick tier - every line event of the count (2-5 thousand per count) is used once as the interruption '
-         'point (complete enumeration for that count, ~48k injections per quick run): report(True), dump(True) and json(True) must succeed, carry the marker exactly once and the recorded '
+         'point (complete enumeration for that count, ~48k injections per quick run; a count too long for the tier is swept at evenly spaced points instead, because re-running up to every point costs the square of its length - both kinds are counted in the evidence): report(True), dump(True) and json(True) must succeed, carry the marker exactly once and the recorded '
          'actions must be value-equal to a prefix of the uninterrupted record. A sample is driven through Droop.main with all report/dump/json combinations. A third of the swept elections carry hostile candidate names (the marker\'s own word, brace and percent directives); the marker is judged on the structure of the record.',
     note='Interruption points are statement starts in files under droop/ (pure Python: no finer grain is observable). Enumeration is exhaustive per swept count, sampled over counts.'),
  'C20': dict(level='exploration', ref='DESIGN.md 3/C20',
